@@ -172,6 +172,7 @@ func runC09(c *runCtx) {
 	c09Validate(c)
 	c09Merge(c)
 	c09Real(c)
+	c09Cache(c)
 	c09Foreign(c, "C09")
 }
 
@@ -416,6 +417,31 @@ func c09MergeOne(c *runCtx, r *rng, p, a, b int) {
 	ch, id := writeIdentityChain(repo, common, "")
 	la, _ := mk(a, t)
 	lb, _ := mk(b, t)
+	// sometimes the remote side carries a version that does not validate (decreasing or dropped
+	// clock, no name and login, unsafe name): the merge must refuse it and leave the local ref alone,
+	// also when the remote extends the local history
+	madeInvalid := false
+	if b > 0 && r.chance(1, 3) {
+		madeInvalid = true
+		k := r.intn(len(lb))
+		prev := t
+		if k > 0 {
+			prev = lb[k-1].Times
+		}
+		switch r.intn(4) {
+		case 0:
+			bad := randRawVersion(r, prev, "decrease")
+			lb[k].Times = bad.Times
+		case 1:
+			bad := randRawVersion(r, prev, "drop")
+			lb[k].Times = bad.Times
+		case 2:
+			lb[k].Name, lb[k].Login = "", ""
+		case 3:
+			lb[k].Name = "bad\x00name"
+		}
+		c.count("merge-remote-made-invalid")
+	}
 	lh, _ := writeIdentityChain(repo, la, ch[len(ch)-1])
 	rh, _ := writeIdentityChain(repo, lb, ch[len(ch)-1])
 	localRef, remoteRef := "refs/identities/"+string(id), "refs/remotes/origin/identities/"+string(id)
@@ -424,25 +450,33 @@ func c09MergeOne(c *runCtx, r *rng, p, a, b int) {
 	local, _ := chainFlags(repo, localRef)
 	remote, _ := chainFlags(repo, remoteRef)
 	before, _ := repo.ResolveRef(localRef)
-	status := ""
+	status, reason := "", ""
 	for res := range identity.MergeAll(repo, "origin") {
 		if string(res.Id) == string(id) {
-			status = mergeStatusName(res.Status)
+			status, reason = mergeStatusName(res.Status), res.Reason
 		}
 	}
 	after, _ := chainFlags(repo, localRef)
 	head, _ := repo.ResolveRef(localRef)
 	res := map[string]string{"updated": "updated", "nothing": "nothing", "invalid": "nonFF"}[status]
+	if status == "invalid" && strings.Contains(reason, "remote identity is invalid") {
+		res = "invalidRemote"
+	}
 	ref := ""
 	if res == "updated" {
 		ref = string(head)
 	}
-	cid := c.emit(map[string]any{"cmd": "merge", "local": local, "remote": remote, "pab": []int{p, a, b}},
+	cid := c.emit(map[string]any{"cmd": "mergeAll", "local": local, "remote": remote, "pab": []int{p, a, b}},
 		map[string]any{"res": res, "chain": commitsOf(after), "ref": ref})
-	c.count(fmt.Sprintf("merge=%s", status))
+	c.count(fmt.Sprintf("merge=%s", res))
 	c.nontrivial(fmt.Sprintf("%d/%d/%d/%s", p, a, b, mustJSON(local)))
 	// oracle
+	remoteValid := !madeInvalid
 	switch {
+	case !remoteValid:
+		if status != "invalid" || head != before || mustJSON(commitsOf(after)) != mustJSON(commitsOf(local)) {
+			c.violation(cid, "C09/invalid-remote", fmt.Sprintf("the remote identity does not validate (p=%d,a=%d,b=%d): reported %q, local ref moved: %v", p, a, b, status, head != before), nil)
+		}
 	case b > 0 && a == 0: // remote extends local
 		if status != "updated" || mustJSON(commitsOf(after)) != mustJSON(commitsOf(remote)) {
 			c.violation(cid, "C09/extend", fmt.Sprintf("remote extends local (p=%d,b=%d): reported %q, local chain has %d versions", p, b, status, len(after)), nil)
@@ -530,6 +564,115 @@ func c09Real(c *runCtx) {
 		}
 		A.Close()
 		B.Close()
+		remote.Close()
+		cleanupScratch()
+	}
+}
+
+// c09Cache: the same through the cache (cache/identity_subcache.go, cache/identity_cache.go): an
+// identity that is loaded in B's cache when a remote extension arrives must be the merged one
+// afterwards (entity and excerpt), and a further local edit appends to the merged history.
+func c09Cache(c *runCtx) {
+	N := c.pick(4, 24)
+	for i := 0; i < N; i++ {
+		r := c.rng.fork()
+		remote, _ := newGoGit("idcremote", true)
+		A, _ := newGoGit("idcA", false)
+		B, _ := newGoGit("idcB", false)
+		A.AddRemote("origin", remote.GetLocalRemote())
+		B.AddRemote("origin", remote.GetLocalRemote())
+		rcA, rcB := mustCache(A), mustCache(B)
+		ia, err := rcA.Identities().New("user", "u@example.com")
+		if err != nil {
+			panic(err)
+		}
+		rcA.SetUserIdentity(ia)
+		own, err := rcB.Identities().New("puller", "p@example.com")
+		if err != nil {
+			panic(err)
+		}
+		rcB.SetUserIdentity(own)
+		if _, err := rcA.Push("origin"); err != nil {
+			panic(err)
+		}
+		if err := rcB.Pull("origin"); err != nil {
+			panic(err)
+		}
+		id := ia.Id()
+		loaded := r.chance(3, 4)
+		if loaded {
+			if _, err := rcB.Identities().Resolve(id); err != nil {
+				panic(err)
+			}
+			c.count("cache-merge-into-loaded")
+		}
+		a := 1 + r.intn(3)
+		name := ""
+		for k := 0; k < a; k++ {
+			name = fmt.Sprintf("user %d", r.intn(1_000_000))
+			if err := ia.Mutate(A, func(m *identity.Mutator) { m.Name = name }); err != nil {
+				panic(err)
+			}
+			if err := ia.Commit(); err != nil {
+				panic(err)
+			}
+		}
+		if _, err := rcA.Push("origin"); err != nil {
+			panic(err)
+		}
+		localRef := "refs/identities/" + string(id)
+		local, _ := chainFlags(B, localRef)
+		if _, err := rcB.Fetch("origin"); err != nil {
+			panic(err)
+		}
+		rem, _ := chainFlags(B, "refs/remotes/origin/identities/"+string(id))
+		status := ""
+		for res := range rcB.MergeAll("origin") {
+			if res.Id == id {
+				status = mergeStatusName(res.Status)
+			}
+		}
+		merged, _ := chainFlags(B, localRef)
+		head, _ := B.ResolveRef(localRef)
+		ref := ""
+		if status == "updated" {
+			ref = string(head)
+		}
+		cid := c.emit(map[string]any{"cmd": "mergeAll", "local": local, "remote": rem, "pab": []int{1, 0, a}, "via": "cache"},
+			map[string]any{"res": status, "chain": commitsOf(merged), "ref": ref})
+		if status != "updated" || mustJSON(commitsOf(merged)) != mustJSON(commitsOf(rem)) {
+			c.violation(cid, "C09/extend", fmt.Sprintf("through the cache: an identity extended %d times remotely was merged with report %q, local chain has %d versions", a, status, len(merged)), nil)
+		}
+		// what the cache now serves
+		ib, err := rcB.Identities().Resolve(id)
+		if err != nil {
+			panic(err)
+		}
+		if ib.Name() != name {
+			c.violation(cid, "C09/cache-stale-after-merge", fmt.Sprintf("after merging the remote extension the cache serves the identity named %q, the merged one is named %q (loaded before the merge: %v)", ib.Name(), name, loaded), nil)
+		}
+		if ex, err := rcB.Identities().ResolveExcerpt(id); err != nil || ex.Name != name {
+			c.violation(cid, "C09/cache-stale-after-merge", fmt.Sprintf("after merging the remote extension the excerpt is not the merged identity's (loaded before the merge: %v)", loaded), nil)
+		}
+		// a further local edit through the cache appends to the merged history
+		if err := ib.Mutate(B, func(m *identity.Mutator) { m.Name = "edited on B" }); err != nil {
+			panic(err)
+		}
+		if err := ib.Commit(); err != nil {
+			panic(err)
+		}
+		final, _ := chainFlags(B, localRef)
+		fc, mc := commitsOf(final), commitsOf(merged)
+		grown := len(fc) == len(mc)+1
+		for k := 0; grown && k < len(mc); k++ {
+			grown = fc[k] == mc[k]
+		}
+		c.count("cache-edit-after-merge")
+		if !grown {
+			c.violation(cid, "C09/history-rewritten", fmt.Sprintf("a local edit after the merge left %d versions where the merged history had %d: the history did not grow by appending (loaded before the merge: %v)", len(fc), len(mc), loaded), nil)
+		}
+		rcA.Close()
+		rcB.Close()
 		remote.Close()
 		cleanupScratch()
 	}
